@@ -404,7 +404,7 @@ template <typename T, size_t N>
 void run_path(Ctx& C, const std::string& path, uint64_t path_id, const Builder<T, N>& build, bool rescale = true) {
   Reporter& R = C.R;
   const char* tn = Num<T>::name;
-  const uint64_t cases = static_cast<uint64_t>(C.A.n("cases", C.A.thorough() ? 120000 : 1600));
+  const uint64_t cases = static_cast<uint64_t>(C.A.n("cases", C.A.thorough() ? 240000 : 6000));
   R.list("paths", path);
   const std::string okey = "obs|" + path + "|" + tn;
   R.crumb("C10|path=" + path + "|" + tn);
@@ -605,9 +605,9 @@ void run_raw(Ctx& C, uint64_t base_id) {
     const V vec = K::make(v);
     return built<T, N>(arr_of(vec), RW::member(vec));
   });
-  if constexpr (!std::is_same_v<T, float>) run_converting<T, float, N>(C, base_id + 8);
-  if constexpr (!std::is_same_v<T, double>) run_converting<T, double, N>(C, base_id + 8);
-  if constexpr (!std::is_same_v<T, long double>) run_converting<T, long double, N>(C, base_id + 8);
+  if constexpr (!std::is_same_v<T, float>) run_converting<T, float, N>(C, base_id + 20);
+  if constexpr (!std::is_same_v<T, double>) run_converting<T, double, N>(C, base_id + 21);
+  if constexpr (!std::is_same_v<T, long double>) run_converting<T, long double, N>(C, base_id + 22);
 
   // default constructor and Zero(): exactly zero
   {
@@ -629,7 +629,7 @@ void run_raw(Ctx& C, uint64_t base_id) {
   // the plain vector as a "quantity": Magnitude() is a number, V(magnitude, direction) recomposes
   {
     const std::string qn = vn;
-    const uint64_t cases = static_cast<uint64_t>(C.A.n("cases", C.A.thorough() ? 120000 : 1600));
+    const uint64_t cases = static_cast<uint64_t>(C.A.n("cases", C.A.thorough() ? 240000 : 6000));
     R.list("quantities", qn);
     R.crumb("C10|quantity=" + qn + "|" + tn);
     for (uint64_t ci = 0; ci < cases; ++ci) {
@@ -729,7 +729,7 @@ void run_cross(Ctx& C, uint64_t id) {
   Reporter& R = C.R;
   const char* tn = Num<T>::name;
   const std::string path = std::string(K::dir) + "::Cross(" + K::dir + ")";
-  const uint64_t cases = static_cast<uint64_t>(C.A.n("cases", C.A.thorough() ? 120000 : 1600));
+  const uint64_t cases = static_cast<uint64_t>(C.A.n("cases", C.A.thorough() ? 240000 : 6000));
   R.list("paths", path);
   R.crumb("C10|path=" + path + "|" + tn);
   const f128 u = ldexpq(1.0Q, -Num<T>::p);
@@ -925,7 +925,7 @@ void run_quantity_T(Ctx& C, const char* qname, const char* mname, uint64_t qinde
   });
 
   // ---- magnitude, accessors, recomposition
-  const uint64_t cases = static_cast<uint64_t>(C.A.n("cases", C.A.thorough() ? 120000 : 1600));
+  const uint64_t cases = static_cast<uint64_t>(C.A.n("cases", C.A.thorough() ? 240000 : 6000));
   R.crumb(qk + tn);
   bool sampled = false;
   guarded(R, qk + tn, [&] {
@@ -1013,7 +1013,7 @@ void run_quantity_T(Ctx& C, const char* qname, const char* mname, uint64_t qinde
       if constexpr (ctor) check("Q(magnitude,direction)", Q(mag, d));
       R.count("qobs|" + qn + "|" + tn);
       R.nontrivial("quantity|" + qn + "|" + tn + "|" + cs.cls);
-      if (!sampled && R.want_sample() && mix(id, static_cast<uint64_t>(C.A.shard) + Num<T>::idx) % 12 == 0 && !ref.zero) {
+      if (!sampled && R.want_sample() && mix(id, static_cast<uint64_t>(C.A.shard) + Num<T>::idx) % 12 == 0 && !ref.zero && ci % 16 < 5) {
         sampled = true;
         R.sample(detail().s("quantity", qn).s("numeric_type", tn).num("magnitude", m).q("exact_norm", ref.len)
                      .raw("direction", jarr(arr_of(d.Value()))).str());
